@@ -36,6 +36,9 @@ type gctx struct {
 	rel   bool // start/relationship/end triple instead of a single node
 	model bool // compose cypher model constructors directly as well
 	check string
+
+	// lookalike: index+1 of the last look-alike list drawn in this case (0 = none yet)
+	lookalike int
 }
 
 func (g *gctx) pick(label string, n int) int { return rapid.IntRange(0, n-1).Draw(g.t, label) }
@@ -163,7 +166,27 @@ func clampF32(f float64) float64 {
 	return f
 }
 
+// lookalikes: pairs of different lists whose default Go formatting (%v) is the same text, e.g. [x y z] for
+// ["x y", "z"] and ["x", "y z"], [1 2] for [1, 2] and ["1", "2"]. Values that only differ where a careless key
+// or cache would not look.
+var lookalikes = [][2]V{
+	{{T: "strs", L: []V{{T: "string", S: "x y"}, {T: "string", S: "z"}}}, {T: "strs", L: []V{{T: "string", S: "x"}, {T: "string", S: "y z"}}}},
+	{{T: "anys", L: []V{{T: "int", I: 1}, {T: "int", I: 2}}}, {T: "anys", L: []V{{T: "string", S: "1"}, {T: "string", S: "2"}}}},
+	{{T: "strs", L: []V{{T: "string", S: "a b"}}}, {T: "strs", L: []V{{T: "string", S: "a"}, {T: "string", S: "b"}}}},
+}
+
 func (g *gctx) listValue() V {
+	if g.lookalike != 0 && g.chance("lookalike-partner", 2) {
+		// the partner of the look-alike list this case already holds
+		pair := lookalikes[g.lookalike-1]
+		g.lookalike = 0
+		return pair[1]
+	}
+	if g.chance("lookalike", 6) {
+		i := g.pick("lookalike-pair", len(lookalikes))
+		g.lookalike = i + 1
+		return lookalikes[i][0]
+	}
 	n := rapid.IntRange(0, 3).Draw(g.t, "nlist")
 	switch g.pick("lkind", 6) {
 	case 0:
